@@ -11,11 +11,15 @@
      hermtoep_raises   HERMTOEP fails only at a stage whose error power tests "<= 0"
      toeplitz_solves   TOEPLITZ(T0,TC,TR,Z) returns X with sum_j t(i-j) X_j = Z_i for every row i of the
                        general (non-Hermitian) Toeplitz matrix with first column T0::TC and first row T0::TR
-   NOT PROVED (stated in DESIGN.md 4/C10): positive definiteness => P_m > 0 and |k_m| < 1 in R
-   (needs the LDL^H reading of the recursion), root location (stability), and the CHOLESKY solvers
-   (numpy/scipy library back ends: residual search only). *)
+   PROVED (abstract ORDERED *-field; with Proofs/YulePD.v):
+     levinson_pd       for every positive-definite Hermitian Toeplitz r and order p the recursion returns (for both values
+                       of allow_singularity), P > 0, every |k_i|^2 < 1, every lower order returns with P_q > 0
+     levinson_stable   ... and every root z of the prediction polynomial (in the field) has |z|^2 < 1
+                       (instances over extension fields / Coquelicot's C: see C12 aryule_stable_ext / _complex)
+   NOT PROVED: the CHOLESKY solvers (numpy/scipy library back ends: residual search only). *)
 Require Import Spectrum.Theory.Ops Spectrum.Theory.Sum Spectrum.Theory.Vec Spectrum.Model.Levinson
-               Spectrum.Proofs.LevinsonTheory Spectrum.Proofs.HermtoepTheory Spectrum.Proofs.ToeplitzTheory Spectrum.Instances.QcC.
+               Spectrum.Proofs.LevinsonTheory Spectrum.Proofs.HermtoepTheory Spectrum.Proofs.ToeplitzTheory Spectrum.Theory.Order Spectrum.Proofs.YulePD Spectrum.Proofs.LevinsonPD
+               Spectrum.Instances.QcC Spectrum.Instances.QcCOrd.
 From Coq Require Import QArith Qcanon.
 
 Section C10.
@@ -69,6 +73,32 @@ Theorem toeplitz_solves (T0 : F) (TC TR Z X : list F) :
 Proof. exact (toeplitz_solves_thm T0 TC TR Z X). Qed.
 End C10.
 
+Section C10_order.
+Context {F : Type} {OF : Ops F} {L : Laws OF} {OL : OrdLaws OF}.
+Local Open Scope F_scope.
+
+Theorem levinson_pd (r : list F) (p : nat) (allow : bool) :
+  isreal (nthF r O) -> (p <= length r - 1)%nat ->
+  (forall c : nat -> F, (exists i, (i <= p)%nat /\ c i <> 0) ->
+     pos (sumf (S p) (fun i => sumf (S p) (fun j => conj (c i) * rz r (Z.of_nat i - Z.of_nat j) * c j)))) ->
+  exists a P k, levinson r p allow = Some (a, P, k)
+    /\ pos P /\ le0 P = false
+    /\ (forall j, (j < p)%nat -> lt (nrm2 (nthF k j)) 1)
+    /\ (forall q, (q <= p)%nat -> exists a' P', levinson r q allow = Some (a', P', firstn q k) /\ pos P').
+Proof.
+  intros Hr Hp HPD. destruct (levinson_pd_thm r p allow Hr Hp HPD) as (a & P & k & E & _ & _ & HP & Hle & Hk & _ & _ & _ & Hq & _).
+  exists a, P, k. split; [exact E|]. split; [exact HP|]. split; [exact Hle|]. split; [exact Hk|exact Hq].
+Qed.
+
+Theorem levinson_stable (r : list F) (p : nat) (allow : bool) a P k (z : F) :
+  isreal (nthF r O) -> (p <= length r - 1)%nat ->
+  (forall c : nat -> F, (exists i, (i <= p)%nat /\ c i <> 0) ->
+     pos (sumf (S p) (fun i => sumf (S p) (fun j => conj (c i) * rz r (Z.of_nat i - Z.of_nat j) * c j)))) ->
+  levinson r p allow = Some (a, P, k) ->
+  sumf (S p) (fun j => afun a j * fpow z (p - j)) = 0 -> lt (nrm2 z) 1.
+Proof. exact (levinson_stable_thm r p allow a P k z). Qed.
+End C10_order.
+
 (* non-vacuity: a concrete complex positive-definite sequence meets the hypotheses and the
    recursion returns; an indefinite one raises *)
 Definition ex_r : list QcC := [cz (2,0) (0,0); cz (1,0) (1,-1); cz (1,-2) (-1,-1)]%Z.
@@ -90,3 +120,5 @@ Print Assumptions levinson_no_raise.
 Print Assumptions hermtoep_solves.
 Print Assumptions hermtoep_raises.
 Print Assumptions toeplitz_solves.
+Print Assumptions levinson_pd.
+Print Assumptions levinson_stable.
